@@ -11,19 +11,22 @@ GEN = ["Handlers"]
 VO = ["Properties/C01.vo", "Properties/C03.vo", "Extract/D_Client.vo"]
 MODULE = "Properties.C01"
 THEOREMS = ["c01_failure_closes_fetch", "c01_failure_closes_store", "c01_failure_closes_misc", "c01_src_handlers", "c01_fresh_connection",
-            "c01_only_own_connection", "c01_noreply_never_reads", "c01_server_silent_iff"]
+            "c01_only_own_connection", "c01_noreply_never_reads", "c01_server_silent_iff", "c01_exact_store", "c01_exact_misc", "c01_exact_noreply"]
 DRIVER = "D_Client"
 TECHNIQUE = ("Coq proof (partial): on the Client model every failing call leaves self.sock None for any exception class, fault, peer "
              "and recv behaviour; fresh connections start empty; noreply calls perform no recv; the specification server is silent "
-             "exactly for noreply commands; exact consumption of the reply by a returning call is checked on the implementation "
-             "with per-byte ownership tags over operations x fault plans x segmentations")
+             "exactly for noreply commands; exact consumption of the reply proved for the line-per-command exchanges and checked "
+             "on the implementation with per-byte ownership tags over operations x fault plans x segmentations")
 LEVEL_TEXT = ("c01_failure_closes_*: for every configuration, peer, script and recv behaviour, an exception of ANY class escaping the "
               "socket phase of a call leaves self.sock = None (handler classes read from base.py on this run: c01_src_handlers); "
               "c01_fresh_connection + c01_only_own_connection: a new connection has nothing pending and bytes appear only as the "
               "answer to a sendall on the current socket, so nothing a failed call left behind is ever read; "
               "c01_noreply_never_reads: every operation called with (effective) noreply performs no recv on any path; "
               "c01_server_silent_iff: the specification server replies exactly when the command does not say noreply. "
-              "PARTIAL: 'a returning call has consumed its reply to the last byte' (quiet_run of c03_sequences) is checked, not proved.")
+              "c01_exact_store/misc/noreply: on a connected client with nothing pending and a fault-free transport, an exchange with any "
+              "peer that answers one CRLF-terminated line per command consumes exactly those lines (nothing unread, nothing over-read). "
+              "PARTIAL: for retrievals and for calls that reconnect first, 'a returning call has consumed its reply to the last byte' "
+              "(quiet_run of c03_sequences) is checked with ownership tags, not proved.")
 LEVEL_NOTE = ("Trusted: Coq kernel; the hand model's correspondence with base.py; tools/py2coq gen_handlers; the ownership ghost of "
               "harness/clientsim.py (each reply byte is tagged with the call whose command elicited it). No axioms.")
 TRUSTED = ["Coq 8.16.1 kernel; no axioms",
